@@ -1,0 +1,50 @@
+//go:build verif
+
+package file
+
+import (
+	"encoding/pem"
+)
+
+// Verification hooks for property C05 (see /verif). Not compiled without the "verif" build tag.
+
+// VerifDERParsers lists, in the order parseDERData tries them, the seven parsers of
+// a DER object together with a stable name.
+var verifDERParsers = []struct {
+	name  string
+	parse func([]byte) (Info, error)
+}{
+	{"certificate", parseCertificate},
+	{"pkcs8", parsePKCS8PrivateKey},
+	{"pkix", parsePKIXPublicKey},
+	{"pkcs1pub", parsePKCS1PublicKey},
+	{"sec1", parseECPrivateKey},
+	{"pkcs1priv", parsePKCS1PrivateKey},
+	{"dsapriv", parseDSAPrivateKey},
+	// parsers reachable from parsePEMBlock only
+	{"ecparams", parseECParameters},
+	{"openssh", parseOpenSSHPrivateKey},
+}
+
+// VerifDERParserNames returns the names of the individual DER parsers (the first
+// seven are parseDERData's trial list).
+func VerifDERParserNames() []string {
+	var out []string
+	for _, p := range verifDERParsers {
+		out = append(out, p.name)
+	}
+	return out
+}
+
+// VerifRunDERParser runs individual parser i on der.
+func VerifRunDERParser(i int, der []byte) (Info, error) {
+	return verifDERParsers[i].parse(der)
+}
+
+// VerifParsePEMBlock runs parsePEMBlock on a block of the given type and content.
+func VerifParsePEMBlock(typ string, der []byte) Info {
+	return parsePEMBlock(&pem.Block{Type: typ, Bytes: der})
+}
+
+// VerifSkipToPEMBlock exposes skipToPEMBlock.
+func VerifSkipToPEMBlock(data []byte) []byte { return skipToPEMBlock(data) }
